@@ -225,6 +225,23 @@ pub trait DynEngine: Sync {
     fn generate_dyn(&self, tag: &str, seed: u64, tier: Tier, index: u64) -> Value;
 }
 
+/// `execute` with a safety net: library code that panics outside any call the engine was
+/// watching (e.g. in a Drop, or while the harness reads a graph back) is a violation of class
+/// `panic`; a panic of the harness itself ends the process with status 3.
+pub fn exec_caught<E: Engine>(e: &E, sc: &E::Sc, stats: &mut Stats) -> Option<(Violation, E::Sc)> {
+    match crate::locks::caught(|| e.execute(sc, stats)) {
+        crate::locks::Caught::Ok(r) => r,
+        crate::locks::Caught::Panic(m) if m.contains("@ src/") => Some((
+            Violation::new("panic", format!("library code panicked outside a monitored call: {m}")),
+            sc.clone(),
+        )),
+        crate::locks::Caught::Panic(m) | crate::locks::Caught::Abort(m) => {
+            eprintln!("HARNESS-ERROR: the harness itself panicked: {m}");
+            std::process::exit(3);
+        }
+    }
+}
+
 pub struct WorkerOut {
     pub runs: u64,
     pub stats: Stats,
@@ -253,17 +270,7 @@ impl<E: Engine> DynEngine for E {
             if i < 3 {
                 stats.sample(json!({"run": i, "scenario": serde_json::to_value(&sc).unwrap()}));
             }
-            let res = match crate::locks::caught(|| self.execute(&sc, &mut stats)) {
-                crate::locks::Caught::Ok(r) => r,
-                crate::locks::Caught::Panic(m) if m.contains("@ src/") => {
-                    // library code panicked outside any call the engine was watching (e.g. in a Drop)
-                    Some((Violation::new("panic", format!("library code panicked outside a monitored call: {m}")), sc.clone()))
-                }
-                crate::locks::Caught::Panic(m) | crate::locks::Caught::Abort(m) => {
-                    eprintln!("HARNESS-ERROR: run {i} of {tag}: the harness itself panicked: {m}");
-                    std::process::exit(3);
-                }
-            };
+            let res = exec_caught(self, &sc, &mut stats);
             done += 1;
             if let Some((v, pinned)) = res {
                 violation = Some((i, v, serde_json::to_value(&pinned).unwrap()));
@@ -289,7 +296,7 @@ impl<E: Engine> DynEngine for E {
     fn replay_dyn(&self, sc: &Value) -> Result<Option<Violation>, String> {
         let sc: E::Sc = serde_json::from_value(sc.clone()).map_err(|e| format!("replay file does not parse: {e}"))?;
         let mut st = Stats::default();
-        Ok(self.execute(&sc, &mut st).map(|(v, _)| v))
+        Ok(exec_caught(self, &sc, &mut st).map(|(v, _)| v))
     }
 
     fn generate_dyn(&self, tag: &str, seed: u64, tier: Tier, index: u64) -> Value {
@@ -301,7 +308,7 @@ impl<E: Engine> DynEngine for E {
         let mut r = rng::stream(seed, tag, index);
         let sc = self.generate(&mut r, tier);
         let mut st = Stats::default();
-        let res = self.execute(&sc, &mut st);
+        let res = exec_caught(self, &sc, &mut st);
         let mut counters = String::new();
         for (k, v) in &st.counters {
             counters.push_str(&format!("{k}={v};"));
@@ -564,7 +571,7 @@ pub fn minimise<E: Engine>(e: &E, sc: E::Sc, v: Violation, budget: Duration) -> 
             if e.size(&cand) >= e.size(&cur) {
                 continue;
             }
-            if let Some((v2, pinned)) = e.execute(&cand, &mut dummy) {
+            if let Some((v2, pinned)) = exec_caught(e, &cand, &mut dummy) {
                 if v2.class == viol.class && e.size(&pinned) < e.size(&cur) {
                     cur = pinned;
                     viol = v2;
